@@ -3822,3 +3822,155 @@ def c06_remove_filter(K, tokeep=None, popnum=None):
         out.append(prove_eq(oid + '.mass-conserved', pc, mass_new, mass_old, fn))
         return out
     return go()
+
+
+def c16_apply_event():
+    """Demes._apply_event: which numerical operation each graph event becomes, with which arguments, and the deme order afterwards
+    (the new deme of a split / branch / admixture / merge always goes last, the parent's slot keeps the first child; removed demes are removed
+    by their index at that moment, counted from 1; more than five demes and unknown events are refused)."""
+    oid = 'C16/Demes.py:_apply_event'
+    fn = 'dadi/Demes/Demes.py::_apply_event'
+
+    @guarded(oid, fn)
+    def go():
+        out = []
+
+        def run(ids, event):
+            calls = []
+
+            def pol(fr):
+                q = fr.qualname
+                if q in ('_split_phi', '_admix_new_pop_phi', '_admix_phi'):
+                    def h(ex_, f_, a, kw):
+                        calls.append((q, [list(x.items) if isinstance(x, VList) else x for x in a]))
+                        return Tm('phi_after_' + q)
+                    return h
+                return 'inline' if q == '_apply_event' else 'abstract'
+
+            def ah(ex_, fref, a, kw, ctx):
+                nm = fref.qualname if isinstance(fref, FuncRef) else vrepr(fref)
+                if 'remove_pop' in nm:
+                    calls.append(('remove_pop', list(a)))
+                    return Tm('phi_after_remove%d' % len(calls))
+                return NotImplemented
+            ex = Executor(policy=pol)
+            ex.abstract_hook = ah
+            f = ex.func('dadi/Demes/Demes.py', '_apply_event')
+            phi, xx = Tm('phi'), Tm('xx')
+            pid = VList(list(ids))
+            paths = ex.run(f, [phi, xx, pid, event, Tm('interval'), Tm('sample_sizes'), Tm('demes_present')], {})
+            return paths, calls, phi, xx
+        p1, p2 = z3.Reals('prop1 prop2')
+
+        def ids_of(v):
+            return list(v.items) if isinstance(v, VList) else v
+        cases = [
+            ('marginalize', ['A', 'B', 'C'], ('marginalize', 'B'), [('remove_pop', lambda a, phi, xx: a[0] is phi and a[1] is xx and a[2] == 2)], ['A', 'C']),
+            ('split', ['A', 'B', 'C'], ('split', 'A', VList(['A1', 'A2'])), [('_split_phi', lambda a, phi, xx: a[0] is phi and a[1] is xx and a[2] == ['A', 'B', 'C'] and a[3] == 'A' and a[4] == ['A1', 'B', 'C', 'A2'])], ['A1', 'B', 'C', 'A2']),
+            ('rename', ['A', 'B', 'C'], ('split', 'B', VList(['Z'])), [], ['A', 'Z', 'C']),
+            ('branch', ['A', 'B', 'C'], ('branch', 'B', 'D'), [('_split_phi', lambda a, phi, xx: a[0] is phi and a[2] == ['A', 'B', 'C'] and a[3] == 'B' and a[4] == ['A', 'B', 'C', 'D'])], ['A', 'B', 'C', 'D']),
+            ('admix', ['A', 'B', 'C'], ('admix', VList(['C', 'A']), VList([p1, p2]), 'D'),
+             [('_admix_new_pop_phi', lambda a, phi, xx: a[0] is phi and a[1] is xx and a[2][0] is p1 and a[2][1] is p2 and a[3] == ['A', 'B', 'C'] and a[4] == ['C', 'A'] and a[5] == ['A', 'B', 'C', 'D'])], ['A', 'B', 'C', 'D']),
+            ('merge', ['A', 'B', 'C'], ('merge', VList(['A', 'C']), VList([p1, p2]), 'D'),
+             [('_admix_new_pop_phi', lambda a, phi, xx: a[0] is phi and a[3] == ['A', 'B', 'C'] and a[4] == ['A', 'C'] and a[5] == ['A', 'B', 'C', 'D']),
+              ('remove_pop', lambda a, phi, xx: a[1] is xx and a[2] == 1), ('remove_pop', lambda a, phi, xx: a[1] is xx and a[2] == 2)], ['B', 'D']),
+            ('pulse', ['A', 'B', 'C'], ('pulses', VList(['C', 'A']), 'B', VList([p1, p2])),
+             [('_admix_phi', lambda a, phi, xx: a[0] is phi and a[1] is xx and a[2][0] is p1 and a[2][1] is p2 and a[3] == ['A', 'B', 'C'] and a[4] == ['C', 'A'] and a[5] == 'B')], ['A', 'B', 'C']),
+        ]
+        for name, ids, ev, want_calls, want_ids in cases:
+            paths, calls, phi, xx = run(ids, ev)
+            tag = '%s.%s' % (oid, name)
+            if len(paths) != 1 or paths[0].outcome != 'return':
+                out.append(struct(tag, False, 'expected one returning path: %r' % paths[:2], fn, undecided=True))
+                continue
+            rphi, rids = paths[0].value
+            ok_calls = [c[0] for c in calls] == [w[0] for w in want_calls] and all(w[1](c[1], phi, xx) for c, w in zip(calls, want_calls))
+            out.append(struct(tag + '.operation', bool(ok_calls), 'operations %s with the documented arguments (got %s)' % ([w[0] for w in want_calls], [(c[0], [vrepr(x) for x in c[1]][2:]) for c in calls]), fn))
+            out.append(struct(tag + '.order', ids_of(rids) == want_ids, 'deme order afterwards %s (got %s)' % (want_ids, ids_of(rids)), fn))
+            last = calls[-1] if calls else None
+            ok_phi = (rphi is phi) if not calls else (isinstance(rphi, Tm) and rphi.op.startswith('phi_after_'))
+            out.append(struct(tag + '.density', bool(ok_phi), 'returns the density produced by the last operation', fn))
+        paths, calls, _, _ = run(['A', 'B', 'C', 'D', 'E'], ('split', 'A', VList(['A1', 'A2'])))
+        out.append(struct(oid + '.refuses-sixth-deme', len(paths) == 1 and paths[0].outcome == 'raise' and not calls, 'a split that would create a sixth deme raises before touching phi', fn))
+        paths, calls, _, _ = run(['A'], ('teleport', 'A'))
+        out.append(struct(oid + '.refuses-unknown-event', len(paths) == 1 and paths[0].outcome == 'raise', 'unknown event type raises', fn))
+        return out
+    return go()
+
+
+def c14_from_file_wiring():
+    """Spectrum.from_file on the very header text that the to_file contract shows is written ('# hello' / '3 4 <folded|unfolded> "A b" "C"'), the pre-1.3
+    header ('3 4') and a label-free new header: comments without '#', shape (3, 4), the folded flag, labels split on the quotes (blanks inside kept),
+    data and mask each = fromstring(<their own line>, count=12, sep=' ').reshape(3, 4), handed to Spectrum(data, mask, mask_corners, data_folded, pop_ids);
+    no mask line / no flag in the old format gives mask None, unfolded, no labels; the file is closed; '.gz' opens gzip in text mode.
+    Together with the to_file contract: shape, folding, labels and comments survive the round trip whatever the data."""
+    oid = 'C14/Spectrum_mod.py:Spectrum.from_file'
+    fn = 'dadi/Spectrum_mod.py::Spectrum.from_file'
+
+    @guarded(oid, fn)
+    def go():
+        out = []
+        cases = [('new.folded', ['# hello\n', '#  second  \n', '3 4 folded "A b" "C"\n', 'DATA LINE \n', 'MASK LINE\n', ''], dict(shape=(3, 4), folded=True, ids=['A b', 'C'], mask=True, comments=['hello', 'second'])),
+                 ('new.unfolded.nolabels', ['3 4 unfolded\n', 'DATA LINE\n', 'MASK LINE\n', ''], dict(shape=(3, 4), folded=False, ids=None, mask=True, comments=[])),
+                 ('old', ['# c\n', '3 4\n', 'DATA LINE\n', ''], dict(shape=(3, 4), folded=False, ids=None, mask=False, comments=['c']))]
+        for gz in (False, True):
+            for name, lines, want in cases:
+                tag = '%s.%s.%s' % (oid, name, 'gz' if gz else 'plain')
+                log, opened, made = [], [], []
+                it = iter(lines)
+                fid = Tm('fid')
+                fid.attrs['readline'] = PyFn(lambda: next(it, ''), 'fid.readline')
+                fid.attrs['close'] = PyFn(lambda: log.append('close'), 'fid.close')
+
+                def ah(ex_, fref, a, kw, ctx):
+                    nm = vrepr(fref)
+                    if 'fromstring' in nm:
+                        t = Tm('parsed(%s)' % a[0])
+                        t.attrs['__src__'] = (a[0], dict(kw))
+
+                        def reshape(*shp):
+                            r = Tm('reshaped(%s)' % a[0])
+                            r.attrs['__src__'] = (a[0], dict(kw), tuple(exact(x) for x in shp))
+                            return r
+                        t.attrs['reshape'] = PyFn(reshape, 'reshape')
+                        return t
+                    if 'gzip' in nm and 'open' in nm:
+                        opened.append(('gzip', list(a)))
+                        return fid
+                    if nm.endswith('prod') or 'numpy.prod' in nm or 'prod(' in nm:
+                        import math as _m
+                        return _m.prod(int(exact(x)) for x in ex_.iterate(a[0]))
+                    if (isinstance(fref, ClassRef) and fref.node.name == 'Spectrum') or (isinstance(fref, Tm) and 'Spectrum' in fref.op):
+                        made.append((list(a), dict(kw)))
+                        return Tm('fs')
+                    return NotImplemented
+                ex = Executor()
+                ex.abstract_hook = ah
+                ex.builtins['open'] = PyFn(lambda *a, **k: (opened.append(('open', list(a))), fid)[1], 'open')
+                f = ex.func('dadi/Spectrum_mod.py', 'Spectrum.from_file')
+                mc = Tm('mask_corners')
+                paths = ex.run(f, ['x.fs.gz' if gz else 'x.fs'], dict(mask_corners=mc, return_comments=True))
+                if len(paths) != 1 or paths[0].outcome != 'return' or len(made) != 1:
+                    out.append(struct(tag, False, 'expected one returning path constructing one Spectrum: %r' % paths[:2], fn, undecided=True))
+                    continue
+                a, kw = made[0]
+                fs, comments = paths[0].value
+                out.append(struct(tag + '.open', opened == [('gzip' if gz else 'open', ['x.fs.gz' if gz else 'x.fs', 'rt' if gz else 'r'])] and log == ['close'], 'opened %s, closed once' % opened, fn))
+                out.append(struct(tag + '.comments', list(ex.iterate(comments)) == want['comments'], 'comments %s' % list(ex.iterate(comments)), fn))
+                d = a[0]
+                src = d.attrs.get('__src__') if isinstance(d, Tm) else None
+                okd = src is not None and src[0] == 'DATA LINE' and src[1].get('count') == 12 and src[1].get('sep') == ' ' and src[2] == want['shape']
+                out.append(struct(tag + '.data', bool(okd), 'data = fromstring(data line, count=12, sep=" ").reshape%s: %s' % (want['shape'], src), fn))
+                mk = a[1] if len(a) > 1 else kw.get('mask')
+                if want['mask']:
+                    msrc = mk.attrs.get('__src__') if isinstance(mk, Tm) else None
+                    okm = msrc is not None and msrc[0] == 'MASK LINE' and msrc[1].get('count') == 12 and msrc[2] == want['shape']
+                else:
+                    okm = mk is None
+                out.append(struct(tag + '.mask', bool(okm), 'mask from its own line (or None in the old format): %s' % vrepr(mk), fn))
+                got_ids = kw.get('pop_ids')
+                got_ids = list(ex.iterate(got_ids)) if got_ids is not None else None
+                okf = kw.get('data_folded') is want['folded'] and got_ids == want['ids'] and (a[2] if len(a) > 2 else kw.get('mask_corners')) is mc
+                out.append(struct(tag + '.metadata', bool(okf), 'data_folded=%s, pop_ids=%s, mask_corners passed through (got %s, %s)' % (want['folded'], want['ids'], kw.get('data_folded'), got_ids), fn))
+        return out
+    return go()
